@@ -133,6 +133,7 @@ class Engine:
         self.events = []          # dicts: kind, where, construct, ...
         self.tables = {}
         self.stats = {'summaries': 0, 'states': 0}
+        self.nl_effects = {}      # summary key -> {((name, atom), ...)}
 
     def event(self, **kw):
         if kw not in self.events:
@@ -177,13 +178,23 @@ class Engine:
             dom = TaintDomain(self, fi)
             outs = TaintInterp(dom).run(fi.node, TS(env))
             rets = set()
+            # a closure that rebinds variables of its enclosing function
+            # (nonlocal x): the values x can have when the call returns
+            nl = sorted({n for x in ast.walk(fi.node)
+                         if isinstance(x, ast.Nonlocal) for n in x.names})
+            effects = set()
             for o in outs:
                 if o.kind == RETURN:
                     rets.add(o.state.ret if o.state.ret is not None
                              else K(None))
                 elif o.kind == NORMAL:
                     rets.add(K(None))
+                if nl and o.kind in (RETURN, NORMAL):
+                    effects.add(tuple((n, o.state.env[n]) for n in nl
+                                      if n in o.state.env))
             res = frozenset(rets)
+            if nl:
+                self.nl_effects[key] = effects
         finally:
             self.in_progress.discard(key)
         self.summaries[key] = res
@@ -251,6 +262,7 @@ class TaintDomain(Domain):
         # entry-specific hooks
         self.sink_append = sink_append      # name of the output list param
         self.sinks = []                     # (node, atom, state)
+        self._nl_pending = []               # effects of closures called
 
     # --------------------------------------------------------- plumbing
     def origin(self, node):
@@ -275,6 +287,31 @@ class TaintDomain(Domain):
 
     # ------------------------------------------------------ statements
     def exec_simple(self, stmt, st):
+        if isinstance(stmt, (ast.FunctionDef, ast.AsyncFunctionDef)):
+            f = getattr(stmt, '_dt_func', None)
+            return [st.set(stmt.name, ('FN', f.where))] if f is not None \
+                else [st]
+        self._nl_pending = []
+        res = self.exec_simple_(stmt, st)
+        # closures called by the statement may have rebound variables of
+        # this function (nonlocal): continue once per possible outcome
+        for eff in self._nl_pending:
+            nxt = {}
+            for s in res:
+                for alt in eff:
+                    s2 = s
+                    for name, atom in alt:
+                        s2 = s2.set(name, atom)
+                    nxt.setdefault(s2.key(), s2)
+            res = list(nxt.values())
+        self._nl_pending = []
+        return res
+
+    def effects(self, stmt, st):
+        r = self.exec_simple(stmt, st)
+        return r[0] if r else st
+
+    def exec_simple_(self, stmt, st):
         if isinstance(stmt, ast.Assign):
             res = []
             for a in self.ev(stmt.value, st):
@@ -1183,6 +1220,11 @@ class TaintDomain(Domain):
                                                 else ''),
                              first=a[1])
         res = self.e.summary(fi, args, kwargs)
+        key = (fi.where, tuple(args), tuple(sorted(kwargs.items(),
+                                                   key=repr)))
+        eff = self.e.nl_effects.get(key)
+        if eff:
+            self._nl_pending.append(eff)
         return set(res)
 
     def is_escaper(self, fi):
